@@ -357,6 +357,14 @@ static void del_by(var self, int method) {
     case ALLOC_RAW: break;
   }
   
+#if CELLO_ALLOC_CHECK == 1
+  /* Not a heap object: refuse before running its destructor */
+  if (self isnt NULL and header(self)->alloc isnt (var)AllocHeap) {
+    dealloc(self);
+    return;
+  }
+#endif
+  
   dealloc(destruct(self));
   
 }
